@@ -202,6 +202,23 @@ def exec_ops(fcbin, hists, name):
     return trf
 
 
+def model_check_proto(tier):
+    """Refinement check: the array algorithm (ProtoArray.tla) against the abstract specification, in lock-step."""
+    wd = lib.fresh_spec_copy()
+    cfg = open(os.path.join(wd, "MC_ProtoArray.cfg")).read()
+    if tier == "thorough":
+        cfg = cfg.replace("MaxCalls = 4", "MaxCalls = 5")
+        open(os.path.join(wd, "MC_ProtoArray.cfg"), "w").write(cfg)
+    res = lib.tlc("MC_ProtoArray", cfg="MC_ProtoArray.cfg", workdir=wd, workers=6 if tier == "quick" else 12,
+                  timeout=900 if tier == "quick" else 3000, heap="8g")
+    shutil.rmtree(wd, ignore_errors=True)
+    if res.rc != 0 or res.errors or "No error has been found" not in res.out:
+        raise lib.InfraError("MC_ProtoArray did not pass (a divergence of the array algorithm from the abstract "
+                             "specification within the bound; to be replayed on the code before it is a verdict):\n"
+                             + res.out[-4000:])
+    return res
+
+
 def model_check(tier):
     """All invariants / action properties of MC_ForkChoice.cfg on every history within the bound."""
     wd = lib.fresh_spec_copy()
@@ -274,6 +291,10 @@ def run_check(pid, tier, seed, replay=None):
 
         def mc():
             try:
+                if pid == "C09":
+                    pres = model_check_proto(tier)
+                    run.counts["mc-proto:distinct-states"] = pres.distinct
+                    mc_holder["proto"] = pres
                 mc_holder["res"] = model_check(tier)
             except Exception as ex:  # noqa: BLE001
                 mc_holder["err"] = ex
@@ -296,6 +317,9 @@ def run_check(pid, tier, seed, replay=None):
         mres = mc_holder["res"]
         run.states += mres.distinct
         run.transitions += mres.generated
+        if "proto" in mc_holder:
+            run.states += mc_holder["proto"].distinct
+            run.transitions += mc_holder["proto"].generated
         run.counts["mc:distinct-states"] = mres.distinct
         run.counts["mc:depth"] = mres.depth
 
